@@ -141,8 +141,15 @@ def concretely(fn, *args, **kwargs):
         return fn(*args, **kwargs)
     args = deep_realize(args)
     kwargs = deep_realize(kwargs)
-    with NoTracing():
-        return fn(*args, **kwargs)
+    from crosshair.util import CrossHairInternal
+    try:
+        with NoTracing():
+            return fn(*args, **kwargs)
+    except CrossHairInternal:
+        # the code under test keeps state outside its arguments (a module-level cache, a class attribute) that an
+        # earlier traced call filled with symbolic values: the call cannot run with the tracer off.  Run it traced.
+        pass
+    return fn(*args, **kwargs)
 
 
 def concrete(value):
